@@ -1,2 +1,2 @@
-/- C19 — theorems are being added. -/
-import DsdVerif.Gen.Grammars
+/- C19 — seesaw grammar round trips: theorems are in Props/C19Ssw.lean. -/
+import DsdVerif.Props.C19Ssw
